@@ -15,6 +15,7 @@ struct TaskCtx {
   int op = -1;                 // plan op index currently in scope
   int64_t op_allocs = 0;       // throwing allocations seen in the current op scope
   int64_t op_nt_allocs = 0;    // nothrow allocations seen in the current op scope
+  int64_t op_cbs = 0;          // user-callback invocations seen in the current op scope (fault kind 2: the n-th one throws)
   // ---- fault to inject (attached to an op, never a global call index)
   int fault_op = -1; int64_t fault_alloc = -1; int fault_kind = 0;
   bool fault_fired = false; uint32_t fault_guard = 0;
@@ -50,6 +51,7 @@ TaskCtx* sim_cur();                       // current task (thread_local), never 
 void sim_scope_enter(int op);
 void sim_scope_leave();
 void sim_yield_point(int kind);           // semantic yield point (user callbacks)
+extern "C" int sim_cb_fault();           // 1: this callback invocation is the one the plan's fault (kind 2) makes throw
 void sim_status_run(uint64_t run, uint64_t phase, uint64_t fop, uint64_t falloc); // crash-attribution words (mmap'd status file)
 void sim_status_op(uint64_t op);
 void sim_status_flag(uint64_t flag);         // context flags for crash attribution (1 = a clipper holds the same container twice)
